@@ -3,6 +3,7 @@ package main
 import (
 	"encoding/json"
 	"fmt"
+	dcp "github.com/Trendyol/go-dcp"
 	"os"
 	"strings"
 	"time"
@@ -75,7 +76,7 @@ func init() {
 			out = append(out, Instance{Scenario: "c02_sessions", Params: mustJSON(SessionsParams{ReadOnly: true, Flushed: true}), Bound: 0, Shards: 2, Note: "read-only metadata, second / third session of one process: a checkpoint that lies beyond the high seqno when the vBucket is (re-)assigned terminates the client - loads are fresh reads also for gained vBuckets"})
 			out = append(out, Instance{Scenario: "c12_reopenfail", Params: mustJSON(ReopenFailParams{Failures: 5}), Bound: 0, Note: "a vBucket that cannot be re-opened after the bounded retries terminates the client"})
 			out = append(out, Instance{Scenario: "c12_reopenfail", Params: mustJSON(ReopenFailParams{Failures: 4}), Bound: 0, Note: "four failed attempts and a successful fifth: streaming continues"})
-			for _, w := range []string{"valid", "metadata", "membership", "leaderelection"} {
+			for _, w := range []string{"valid", "metadata", "membership", "leaderelection", "placeholder"} {
 				out = append(out, Instance{Scenario: "c15_types", Params: mustJSON(TypeParams{Which: w}), Bound: 0})
 			}
 			return out
@@ -273,6 +274,30 @@ func typesMain(p TypeParams) {
 			cfg.Metadata.Type = []string{"redis", "Couchbase", "files"}[vrt.Choose(3, true, "bad-type")]
 		case "membership":
 			cfg.Dcp.Group.Membership.Type = []string{"zookeeper", "Static", "kubernetes"}[vrt.Choose(3, true, "bad-type")]
+		case "placeholder":
+			// the type switches are written as ${VAR} placeholders in a configuration FILE and the variables are
+			// not set: what the real loader makes of them is what Start() gets
+			os.Unsetenv("C15_UNSET_TYPE")
+			f, _ := os.CreateTemp("", "c15*.yml")
+			which := vrt.Choose(2, true, "placeholder-in")
+			yml := "hosts:\n  - \"h:8091\"\nusername: u\npassword: p\nbucketName: b\n"
+			if which == 0 {
+				yml += "metadata:\n  type: \"${C15_UNSET_TYPE}\"\n"
+			} else {
+				yml += "dcp:\n  group:\n    name: g\n    membership:\n      type: \"${C15_UNSET_TYPE}\"\n"
+			}
+			f.WriteString(yml)
+			f.Close()
+			loaded, err := dcp.VerifNewDcpConfig(f.Name())
+			os.Remove(f.Name())
+			if err != nil {
+				panic(err) // a loader that rejects the file terminates the start-up as well
+			}
+			if which == 0 {
+				cfg.Metadata.Type = loaded.Metadata.Type
+			} else {
+				cfg.Dcp.Group.Membership.Type = loaded.Dcp.Group.Membership.Type
+			}
 		case "leaderelection":
 			cfg.LeaderElection.Enabled = true
 			cfg.LeaderElection.Type = []string{"consul", "Kubernetes"}[vrt.Choose(2, true, "bad-type")]
